@@ -69,6 +69,13 @@ theorem runConv_spec {m : Mem} {h h' : HV} {c : Conv} (hc : runConv m h c = some
         · cases hc
       · cases hc
     · cases hc
+  case toDyn =>
+    split at hc
+    · simp only [Option.some.injEq] at hc; subst hc
+      exact ⟨rfl, fun hk => by simp [Arc.from_raw] at hk⟩
+    · split at hc
+      · simp only [Option.some.injEq] at hc; subst hc; exact ⟨rfl, fun h => h⟩
+      · cases hc
   all_goals
     split at hc
     · simp only [Option.some.injEq] at hc
